@@ -182,6 +182,13 @@ theorem C14_pending_files_finalised :
     ∀ st ∈ Gen.sites, st.op = 1 → st.fin = 1 ∨ st.fin = 2 := by
   decide +kernel
 
+/-- The aghrenameio wrapper the filter updater writes through adds nothing of its
+own: `CloseReplace`, `Cleanup` and `Write` are single delegations to renameio's
+`CloseAtomicallyReplace` (fsync, close, rename), `Cleanup` and `os.File.Write` —
+the syscall programs `atomicWrite` / `pendingAbort` transcribe. -/
+theorem C14_wrapper_delegates : Gen.wrapperDelegates = [true, true, true] := by
+  decide
+
 /-- The table is not vacuous: each of the three kinds has a writer site in it
 (config 2, leases 4, filter 8). -/
 theorem C14_three_kinds_present :
